@@ -447,3 +447,112 @@ fn promote_container_to_array(container: &Container, hll_type: HllType, lg_confi
         }
     }
 }
+
+/// Verification hook (feature `verif-hooks`): a dump of the internal state of an [`HllSketch`].
+#[cfg(feature = "verif-hooks")]
+#[derive(Debug, Clone, PartialEq, Default)]
+pub struct VerifHllState {
+    /// 0 = list, 1 = set, 2 = register array.
+    pub mode: u8,
+    /// log2 of the coupon container size (list / set mode).
+    pub lg_arr: usize,
+    /// The raw coupon slots of the container, empty slots (0) included (list / set mode).
+    pub coupon_slots: Vec<u32>,
+    /// The container's own count of stored coupons (list / set mode).
+    pub coupon_count: usize,
+    /// One register value per slot (array mode).
+    pub registers: Vec<u8>,
+    /// Raw 4-bit nibbles (Hll4 array mode only).
+    pub raw_nibbles: Vec<u8>,
+    /// cur_min (Hll4; 0 otherwise).
+    pub cur_min: u8,
+    /// Number of registers at cur_min (Hll4) or number of zero registers (Hll6 / Hll8).
+    pub num_at_cur_min: u32,
+    /// Aux map pairs (slot, value) (Hll4 only).
+    pub aux: Vec<(u32, u8)>,
+    /// HIP accumulator (array mode).
+    pub hip_accum: f64,
+    /// kxq0 (array mode).
+    pub kxq0: f64,
+    /// kxq1 (array mode).
+    pub kxq1: f64,
+    /// Out-of-order flag (array mode).
+    pub out_of_order: bool,
+}
+
+#[cfg(feature = "verif-hooks")]
+impl HllSketch {
+    /// Verification hook: offers a raw coupon `(value << 26) | slot` through the same path as
+    /// [`HllSketch::update`] takes after hashing.
+    pub fn verif_update_with_coupon(&mut self, coupon: u32) {
+        self.update_with_coupon(coupon);
+    }
+
+    /// Verification hook: the coupon [`HllSketch::update`] derives for `value`.
+    pub fn verif_coupon<T: Hash>(value: T) -> u32 {
+        coupon(value)
+    }
+
+    /// Verification hook: dumps the internal state without going through the serializer.
+    pub fn verif_state(&self) -> VerifHllState {
+        match &self.mode {
+            Mode::List { list, .. } => VerifHllState {
+                mode: 0,
+                lg_arr: list.container().lg_size(),
+                coupon_slots: list.container().coupons.to_vec(),
+                coupon_count: list.container().len(),
+                ..Default::default()
+            },
+            Mode::Set { set, .. } => VerifHllState {
+                mode: 1,
+                lg_arr: set.container().lg_size(),
+                coupon_slots: set.container().coupons.to_vec(),
+                coupon_count: set.container().len(),
+                ..Default::default()
+            },
+            Mode::Array4(arr) => {
+                let (registers, raw_nibbles, cur_min, num_at_cur_min, aux, hip, kxq0, kxq1, ooo) =
+                    arr.verif_parts();
+                VerifHllState {
+                    mode: 2,
+                    registers,
+                    raw_nibbles,
+                    cur_min,
+                    num_at_cur_min,
+                    aux,
+                    hip_accum: hip,
+                    kxq0,
+                    kxq1,
+                    out_of_order: ooo,
+                    ..Default::default()
+                }
+            }
+            Mode::Array6(arr) => {
+                let (registers, num_zeros, hip, kxq0, kxq1, ooo) = arr.verif_parts();
+                VerifHllState {
+                    mode: 2,
+                    registers,
+                    num_at_cur_min: num_zeros,
+                    hip_accum: hip,
+                    kxq0,
+                    kxq1,
+                    out_of_order: ooo,
+                    ..Default::default()
+                }
+            }
+            Mode::Array8(arr) => {
+                let (registers, num_zeros, hip, kxq0, kxq1, ooo) = arr.verif_parts();
+                VerifHllState {
+                    mode: 2,
+                    registers,
+                    num_at_cur_min: num_zeros,
+                    hip_accum: hip,
+                    kxq0,
+                    kxq1,
+                    out_of_order: ooo,
+                    ..Default::default()
+                }
+            }
+        }
+    }
+}
